@@ -55,6 +55,10 @@ type Config struct {
 	PCTChanges int
 	PCTSpan    int
 	NumCPU     int
+	// MaxAdvanceExp bounds the clock-advance quantum chosen while goroutines are runnable to
+	// 1µs<<MaxAdvanceExp (0: the default 23, i.e. ~8 s). Advancing the clock while something is runnable
+	// models a slow or starved process; small values keep a fault-free configuration fault-free.
+	MaxAdvanceExp int
 	// OnStep runs on the scheduler goroutine at every quiescent point (all goroutines parked).
 	OnStep func(s *Sim)
 	// OnIdle runs when nothing is runnable, no simulator event is pending and Horizon of simulated
@@ -129,7 +133,11 @@ type Sim struct {
 
 	pctChange map[int]bool
 	rrNext    int
+	starved   time.Duration
 }
+
+// Starved returns the simulated time the scheduler let pass although goroutines were runnable.
+func (s *Sim) Starved() time.Duration { return s.starved }
 
 // S is the active simulation (one per process at a time).
 var S atomic.Pointer[Sim]
@@ -336,6 +344,18 @@ func (s *Sim) Logf(format string, a ...any) {
 	s.mu.Unlock()
 }
 
+// Notef records a human-readable line in the kept log only; it is not part of the event-log hash
+// (used for the program's own log output, which may mention process-global counters).
+func (s *Sim) Notef(format string, a ...any) {
+	if !s.cfg.KeepLog {
+		return
+	}
+	line := fmt.Sprintf(format, a...)
+	s.mu.Lock()
+	s.lines = append(s.lines, fmt.Sprintf("%d t=%v %s", s.steps, time.Since(s.start), line))
+	s.mu.Unlock()
+}
+
 // Logf logs to the active simulation, if any.
 func Logf(format string, a ...any) {
 	if s := S.Load(); s != nil {
@@ -500,7 +520,14 @@ func (s *Sim) choose(cands []*G) int {
 
 func (s *Sim) advance() {
 	// quantum: 1µs << k, k in [0,23], or (k==24) "to the next simulator event".
+	maxK := s.cfg.MaxAdvanceExp
+	if maxK <= 0 || maxK > 23 {
+		maxK = 23
+	}
 	k := s.Tape.Next(25)
+	if k < 24 && k > maxK {
+		k = k % (maxK + 1)
+	}
 	var d time.Duration
 	if k == 24 {
 		var ok bool
@@ -523,6 +550,10 @@ func (s *Sim) advance() {
 		s.lines = append(s.lines, fmt.Sprintf("%d t=%v advance %v", s.steps, time.Since(s.start), d))
 	}
 	s.stats["sched.time_advance"]++
+	s.starved += d
+	if d >= time.Second {
+		s.stats["fault.process_starved_1s_or_more"]++
+	}
 	s.mu.Unlock()
 	time.Sleep(d)
 }
